@@ -57,6 +57,8 @@ type ReadCfg struct {
 	ProbeIdle bool
 	// Bufio > 0: Reader.Source is a *bufio.Reader of that size over the transport.
 	Bufio int
+	// ZeroBuf: the application now and then calls Read with an empty buffer.
+	ZeroBuf bool
 }
 
 func (c ReadCfg) Name() string {
@@ -113,6 +115,9 @@ type Outcome struct {
 	Calls    int
 	ZeroRds  int
 	AfterErr []byte // bytes a Read handed out after NextFrame had refused a frame
+	ZeroBuf  bool   // the application now and then calls Read with an empty buffer
+	zeroSalt uint64
+	nreads   int
 }
 
 var bufSizes = [...]int{4096, 1, 2, 3, 5, 8, 16, 64, 512, 70000}
@@ -124,7 +129,7 @@ const maxZeroReads = 5000
 // RunApp drives one read-side application over the pipe until the stream ends
 // or an API call fails.
 func RunApp(r *eng.Run, p *Pipe, cfg ReadCfg) *Outcome {
-	o := &Outcome{}
+	o := &Outcome{ZeroBuf: cfg.ZeroBuf}
 	switch cfg.App {
 	case AppReader:
 		appReader(r, p, cfg, o)
@@ -172,8 +177,17 @@ func readUnit(r *eng.Run, p *Pipe, rd io.Reader, discard func() error, rec *Rec,
 			}
 			return true
 		}
-		n, err := rd.Read(buf)
-		if n < 0 || n > len(buf) {
+		b := buf
+		if o.ZeroBuf && o.zeroSalt == 0 {
+			o.zeroSalt = 1 + uint64(r.T.U32(sim.LAct))
+		}
+		o.nreads++
+		if o.ZeroBuf && sim.Mix(o.zeroSalt, uint64(o.nreads))%8 == 0 {
+			b = buf[:0] // "nothing happened" is the only legal answer besides the end of the message
+			r.Probe("read_with_empty_buffer")
+		}
+		n, err := rd.Read(b)
+		if n < 0 || n > len(b) {
 			r.Failf("read_count_out_of_range", "Read returned n=%d for a %d byte buffer", n, len(buf))
 		}
 		rec.Data = append(rec.Data, buf[:n]...)
@@ -184,7 +198,10 @@ func readUnit(r *eng.Run, p *Pipe, rd io.Reader, discard func() error, rec *Rec,
 			o.Open, o.Err, o.ErrAt = rec, err, "Read"
 			return false
 		}
-		if n == 0 {
+		if n > 0 {
+			o.ZeroRds = 0 // consecutive empty reads are what counts as not making progress
+		}
+		if n == 0 && len(b) > 0 {
 			o.ZeroRds++
 			if o.ZeroRds > maxZeroReads {
 				panic(eng.Hang{What: "Reader.Read keeps returning (0, nil)"})
